@@ -93,7 +93,20 @@ def judge(case, impl_res, ans):
     # templates
     if ok['templates']['shape'] != [sum(nts), len(P[0]['templates'][0]), sum(ncs)]:
         return 'SPEC: merged templates shape %s' % ok['templates']['shape']
-    if [[[int(v) for v in row] for row in t] for t in ok['templates']['vals']] != m['templates']:
+    def _tok(v):
+        return 'nan' if v != v else ('inf' if v in (float('inf'), float('-inf')) else int(v))
+    exp_t = [[list(row) for row in t] for t in m['templates']]
+    # empty templates stored as NaN (KiloSort 2): NaN on THEIR cells of THEIR probe's block only; zeros on the channels of
+    # the other probes like any other template (read off the probes of the case, so that shrinking stays consistent)
+    for k, p in enumerate(P):
+        for t, tm in enumerate(p['templates']):
+            if all(v != v for row in tm for v in row):
+                g, c0 = sum(nts[:k]) + t, sum(ncs[:k])
+                if g < len(exp_t):
+                    for row in exp_t[g]:
+                        for c in range(ncs[k]):
+                            row[c0 + c] = 'nan'
+    if [[[_tok(v) for v in row] for row in t] for t in ok['templates']['vals']] != exp_t:
         return 'SPEC: templates are not block-structured (template t of probe k at toff_k + t on probe k\'s channel block, zeros elsewhere)'
     # index tables
     exp_pc = [[c + choff[k] for c in row] for k, p in enumerate(P) for row in p['pc_feature_ind']]
@@ -140,6 +153,8 @@ def nontrivial(case):
 
 def tally(rep, case, impl_res, ans):
     rep.count('again:%s' % case.get('again', 'no'))
+    if any(all(v != v for row in tm for v in row) for p in case['probes'] for tm in p['templates']):
+        rep.count('a probe with an empty (all-NaN) template')
     rep.count('probe_dir_names:%s/%s' % (case.get('dirnames', 'idx'), case.get('dirkind', 'path')))
     rep.count('probes:%d' % len(case['probes']))
     rep.count('positions_dtype:' + (case['probes'][0].get('dtypes') or {}).get('channel_positions', 'float64'))
@@ -215,4 +230,12 @@ def gen(tier, rng):
                     nc = len(p['channel_map'])
                     p['whitening_inv'] = [[float(p['tok'] * 10000 + a * 100 + b + 1 + (100000 if a == b else 0) + 500000)
                                            for b in range(nc)] for a in range(nc)]
+        if i % 10 == 3 or i % 7 == 4:
+            # a template WITHOUT SPIKES of one probe is empty: all NaN, as KiloSort 2 stores it (the loader reads it as zeros)
+            P = case['probes']
+            cand = [(k, t) for k, p in enumerate(P) for t in range(len(p['templates'])) if t not in p['spike_templates']]
+            if cand:
+                k, t = rng.pick(cand)
+                P[k]['templates'][t] = [[float('nan')] * len(r) for r in P[k]['templates'][t]]
+                case['nonfinite'] = [k, t, 'nan']
         yield F.with_again(case, i, rng)
